@@ -53,6 +53,7 @@ pub struct RefZone {
     pub trans: Vec<(i64, usize)>,
     pub types: Vec<Info>,
     pub footer: Option<Posix>,
+    pub footer_text: Option<String>,
     pub version: u8,
 }
 
@@ -150,6 +151,7 @@ pub fn parse_tzif(data: &[u8]) -> Option<RefZone> {
         return None;
     }
     let mut footer = None;
+    let mut footer_text = None;
     if ver != 0 {
         let rest = body.get(p..)?;
         if rest.first() == Some(&b'\n') {
@@ -157,6 +159,7 @@ pub fn parse_tzif(data: &[u8]) -> Option<RefZone> {
                 let s = std::str::from_utf8(&rest[1..1 + e]).ok()?;
                 if !s.is_empty() {
                     footer = Some(parse_posix(s)?);
+                    footer_text = Some(s.to_string());
                 }
             }
         }
@@ -172,7 +175,7 @@ pub fn parse_tzif(data: &[u8]) -> Option<RefZone> {
         .zip(idx.iter())
         .map(|(&t, &i)| (t.clamp(TS_MIN, TS_MAX), i))
         .collect();
-    Some(RefZone { trans, types, footer, version: ver })
+    Some(RefZone { trans, types, footer, footer_text, version: ver })
 }
 
 // --- POSIX TZ ---------------------------------------------------------------
@@ -448,7 +451,7 @@ pub enum Civil {
 
 impl RefZone {
     pub fn posix_only(p: Posix) -> RefZone {
-        RefZone { trans: vec![], types: vec![p.std.clone()], footer: Some(p), version: 3 }
+        RefZone { trans: vec![], types: vec![p.std.clone()], footer: Some(p), footer_text: None, version: 3 }
     }
 
     pub fn fixed(off: i32) -> RefZone {
@@ -456,6 +459,7 @@ impl RefZone {
             trans: vec![],
             types: vec![Info { off, dst: false, abbr: String::new() }],
             footer: None,
+            footer_text: None,
             version: 0,
         }
     }
